@@ -153,8 +153,10 @@ def run(item, ctx, tier, seed):
                 if ok and not abs(ac - (float(hi - lo) - a)) <= TOL:
                     ctx.fail("y-complement", c2, observed=ac, expected=float(hi - lo) - a,
                              snippet=_snip(pos, neg, cfg, ep, en, f"auc({float(lo)!r}, {float(hi)!r}, y_axis='fnr')"))
+                # (axis names held as run-time built / NumPy strings on alternating states)
+                xname = ot.string_kinds("tnr")[(len(pos) + ep) % 3][1]
                 ok, ax = guarded(ctx, "auc-xcomp", c2,
-                                 lambda: float(s.auc(float(1 - hi), float(1 - lo), x_axis="tnr")))
+                                 lambda: float(s.auc(float(1 - hi), float(1 - lo), x_axis=xname)))
                 ctx.tick()
                 if ok and not abs(ax - a) <= TOL:
                     ctx.fail("x-complement-mirrors-interval", c2, observed=ax, expected=a,
